@@ -8,6 +8,7 @@ import Driver.LockTime
 import Driver.Runner
 import Driver.Zip
 import Driver.Fs
+import Driver.IO
 
 def dispatch (line : String) : String :=
   match (line.trimAscii.toString.splitOn " ").filter (· ≠ "") with
@@ -26,6 +27,7 @@ def dispatch (line : String) : String :=
   | "sanitise" :: rest => Driver.Zip.handleSanitise rest
   | "unzip" :: rest => Driver.Zip.handleUnzip rest
   | "fsprog" :: rest => Driver.Fs.handle rest
+  | "io" :: rest => Driver.IO.handle rest
   | _ => "bad-op"
 
 partial def loop (hin hout : IO.FS.Stream) : IO Unit := do
